@@ -65,10 +65,10 @@ le_rcv_ctx = dict(
         (r'unifex::start\(finalOp\)', 'EV_start(op, SL_final)'),
         # conditional noexcept(is_nothrow_receiver_of_v<...>), no try block: an exception of the receiver's set_value propagates back into the child
         # (inside a try block -- the shape of the proposed repair and of _frcvr::set_value -- the exception goes to the handler)
-        (r'(?s)(UNIFEX_TRY\s*\{\s*)unifex::set_value\(\s*std::move\(op->receiver_\),\s*std::move\(values\)\.\.\.\);', r'\1if (EV_set_value(op)) goto vf_catch;'),
-        (r'(?s)unifex::set_value\(\s*std::move\(op->receiver_\),\s*std::move\(values\)\.\.\.\);', 'if (EV_set_value(op)) return;'),
-        (r'(?s)unifex::set_done\(\s*std::move\(op->receiver_\)\)', 'EV_set_done(op)'),
-        (r'(?s)unifex::set_error\(\s*std::move\(op->receiver_\),\s*std::current_exception\(\)\)', 'EV_set_error_exception(op)'),
+        (r'(?s)(UNIFEX_TRY\s*\{\s*)unifex::set_value\(\s*std::move\((op_?)->receiver_\),\s*std::move\(values\)\.\.\.\);', r'\1if (EV_set_value(\2)) goto vf_catch;'),
+        (r'(?s)unifex::set_value\(\s*std::move\((op_?)->receiver_\),\s*std::move\(values\)\.\.\.\);', r'if (EV_set_value(\1)) return;'),
+        (r'(?s)unifex::set_done\(\s*std::move\((op_?)->receiver_\)\)', r'EV_set_done(\1)'),
+        (r'(?s)unifex::set_error\(\s*std::move\((op_?)->receiver_\),\s*std::current_exception\(\)\)', r'EV_set_error_exception(\1)'),
     ],
     post=ALIVE,
 )
@@ -80,10 +80,10 @@ le_frcv_ctx = dict(
         (r'(?<![\w.>:])cleanup\(op\)', 'le_frcv_cleanup(op)'),
         (r'(?s)unifex::deactivate_union_member<final_op_t>\(\s*op->(source|final)Op_\s*\)', r'EV_deactivate(op, SL_\1)'),
         (r'(?s)op->(error)_\.template destruct<Error>\(\)', r'EV_destruct(op, SL_\1)'),
-        (r'(?s)unifex::set_value\(\s*std::move\(op->receiver_\),\s*std::move\(values\)\.\.\.\);', 'if (EV_set_value(op)) VF_THROWN;'),
-        (r'(?s)unifex::set_error\(\s*std::move\(op->receiver_\),\s*std::current_exception\(\)\)', 'EV_set_error_exception(op)'),
-        (r'(?s)unifex::set_error\(\s*std::move\(op->receiver_\),\s*std::move\(error\)\)', 'EV_set_error(op)'),
-        (r'(?s)unifex::set_done\(\s*std::move\(op->receiver_\)\)', 'EV_set_done(op)'),
+        (r'(?s)unifex::set_value\(\s*std::move\((op_?)->receiver_\),\s*std::move\(values\)\.\.\.\);', r'if (EV_set_value(\1)) VF_THROWN;'),
+        (r'(?s)unifex::set_error\(\s*std::move\((op_?)->receiver_\),\s*std::current_exception\(\)\)', r'EV_set_error_exception(\1)'),
+        (r'(?s)unifex::set_error\(\s*std::move\((op_?)->receiver_\),\s*std::move\(error\)\)', r'EV_set_error(\1)'),
+        (r'(?s)unifex::set_done\(\s*std::move\((op_?)->receiver_\)\)', r'EV_set_done(\1)'),
     ] + TRY_CATCH,
     post=ALIVE,
 )
@@ -109,7 +109,7 @@ ld_rcv_ctx = dict(
         (r'unifex::start\(\s*op->(source|final)Op_\.get\(\)\s*\)', r'EV_start(op, SL_\1)'),
         # conditional noexcept(is_nothrow_receiver_of_v<...>), no try block: an exception of the receiver's set_value propagates back into the child
         (r'(?s)unifex::set_value\(\s*std::move\(op_->receiver_\),\s*\(Values&&\)values\.\.\.\);', 'if (EV_set_value(op_)) return;'),
-        (r'(?s)unifex::set_error\(\s*std::move\(op->receiver_\),\s*std::current_exception\(\)\)', 'EV_set_error_exception(op)'),
+        (r'(?s)unifex::set_error\(\s*std::move\((op_?)->receiver_\),\s*std::current_exception\(\)\)', r'EV_set_error_exception(\1)'),
         (r'(?s)unifex::set_error\(\s*std::move\(op_->receiver_\),\s*\(Error&&\)error\)', 'EV_set_error(op_)'),
         (r'(?s)unifex::set_done\(\s*std::move\(op_->receiver_\)\)', 'EV_set_done(op_)'),
     ] + TRY_CATCH,
